@@ -174,6 +174,8 @@ Lemma op_interps_copy : forall op li ri, op_interps G1 op li ri = op_interps G o
 Proof.
   intros. unfold op_interps, op_types. f_equal. apply filter_ext. intros t. rewrite HO. reflexivity.
 Qed.
+Lemma agg_type_copy : forall op li, agg_type G1 op li = agg_type G op li.
+Proof. intros. unfold agg_type. destruct (dedup (filter is_composite li)) as [|t [|]]; try reflexivity. rewrite HO. reflexivity. Qed.
 Lemma find_field_sh : forall fs f, find_field fs (sh f) = find_field fs f.
 Proof. reflexivity. Qed.
 Lemma args_has_pos_sh : forall a, args_has_pos (sh_args m a) = args_has_pos a.
@@ -226,9 +228,21 @@ Proof.
       rewrite (IHa _ E0). cbn [bind]. rewrite Ef. f_equal. apply flat_map_ext. intros x.
       rewrite call_ways_chmap. reflexivity. }
     split; [exact HA|apply root_of_interp_c; [reflexivity|exact HA]].
-  - intros i op l [IHl _] r [IHr _]. assert (HA : A_c (EBin i op l r)).
-    { intros li H. cbn [sh_expr]. autorewrite with chkeq in *. minv H.
-      rewrite (IHl _ E), (IHr _ E0). cbn [bind]. rewrite op_interps_copy. reflexivity. }
+  - intros i op l [IHl IHRl] r [IHr IHRr]. assert (HA : A_c (EBin i op l r)).
+    { intros li H. cbn [sh_expr]. autorewrite with chkeq in *.
+      change (is_aggregate (sh_expr m r)) with (is_agg (sh_expr m r)).
+      change (is_aggregate (sh_expr m l)) with (is_agg (sh_expr m l)).
+      rewrite !is_agg_sh. change (is_agg r) with (is_aggregate r). change (is_agg l) with (is_aggregate l).
+      destruct (is_aggregate r) eqn:Ar.
+      - destruct (is_aggregate l) eqn:Al; [exact H|].
+        apply bind_ok in H. destruct H as (a & E & K). rewrite (IHl _ E). cbn [bind]. rewrite agg_type_copy.
+        destruct (agg_type G op a) as [t|]; [|exact K].
+        apply bind_ok in K. destruct K as (u & Er & K). rewrite (IHRr _ _ Er). cbn [bind]. exact K.
+      - destruct (is_aggregate l) eqn:Al.
+        + apply bind_ok in H. destruct H as (a & E & K). rewrite (IHr _ E). cbn [bind]. rewrite agg_type_copy.
+          destruct (agg_type G op a) as [t|]; [|exact K].
+          apply bind_ok in K. destruct K as (u & El & K). rewrite (IHRl _ _ El). cbn [bind]. exact K.
+        + minv H. rewrite (IHl _ E), (IHr _ E0). cbn [bind]. rewrite op_interps_copy. reflexivity. }
     split; [exact HA|apply root_of_interp_c; [reflexivity|exact HA]].
   - intros i e [IHe _]. assert (HA : A_c (ENot i e)).
     { intros li H. cbn [sh_expr]. autorewrite with chkeq in *. minv H. rewrite (IHe _ E). reflexivity. }
